@@ -156,6 +156,21 @@ def run(ctx, rep):
         rep.case(("late", str(c[3]), str(c[1][:4])), "late-handshake-replies")
         for klass, detail in sess.device_key_discipline(c, im[3], sess.run_impl.last_event_times):
             rep.fail("oracle", klass, {"connects": c[0], "hs_replies": c[1], "replies": c[2], "ops": c[3]}, detail)
+    # ---- other credentials offered on a LIVE authenticated session, reply not verifiable: must fail like on a fresh one ----------
+    for c in sessgen.reauth_on_live_session(rng, ctx.n(30, 500)):
+        im = sess.run_impl(ctx.model, rng, *c)
+        i = next(k for k, o in enumerate(c[3]) if o[0] == 2 and o[1] == 2)
+        info = sess.run_impl.last_opinfo
+        end = info[i + 1]["nevents"] if i + 1 < len(info) else len(im[3])
+        new_hs = [e for e in im[3][info[i]["nevents"]:end] if e[0] == 2]
+        rep.case(("reauth-live", str(c[3]), str(c[1][1])), "reauth-on-live-session")
+        inp = {"connects": c[0], "hs_replies": c[1][:4], "replies": c[2][:3], "ops": c[3]}
+        if im[2][i][0] not in (11, 12):
+            rep.fail("oracle", "unverifiable-reauthentication-accepted", inp, {"outcome": im[2][i], "handshakes_written": new_hs})
+        elif not new_hs or any(e[3] != 0 for e in new_hs):
+            rep.fail("oracle", "reauthentication-without-handshake-request", inp, {"handshakes_written": new_hs})
+        elif im[1][2] != 1:
+            rep.fail("oracle", "stored-credentials-replaced", inp, {"stored": im[1][2]})
     # ---- _get_local_key correspondence --------------------------------------------------------------------
     cases = []
     for i in range(ctx.n(150, 3000)):
